@@ -340,6 +340,7 @@ class Engine:
         s.called = set()      # names of MIR functions executed (evidence: functions encoded)
         s.natives_used = set()
         s.alloc_calls = []    # C13: calls into alloc::/std:: met on a path
+        s.last_ret = None     # (declared return type, env) of the MIR function that returned last (binds `impl Trait` locals)
         s.fork_limit = None
         import os as _os
         s.dump_dir = _os.environ.get('VERIF_SMT_DUMP')
@@ -580,6 +581,7 @@ class Engine:
             bb = term(fr)
             if bb < 0:
                 s.stack.pop()
+                s.last_ret = (fn.ret, env)
                 return fr[0] if fr[0] is not None else UNIT
 
     def call_value(s, f, args):
@@ -1807,8 +1809,25 @@ class Compiler:
                     return rt
                 return _callv
 
+            # destination declared with an opaque type (`&mut impl ErrorQueue`): learn the concrete type from the callee's signature,
+            # so that later calls without a receiver (`<impl ErrorQueue as Default>::default()`) can be resolved
+            opaque = None
+            mdest = re.match(r'^_(\d+)$', dest.strip()) if dest else None
+            if mdest:
+                dty = norm_type(fn.local_ty.get(int(mdest.group(1)), '') or '')
+                mo = re.search(r'impl [A-Za-z_]\w*', dty)
+                if mo and dty.count('impl ') == 1:
+                    opaque = (mo.group(0), re.compile('^' + re.escape(dty).replace(re.escape(mo.group(0)), '(.+)').replace('\\ ', ' ?') + '$'))
+
             def _call(fr):
+                if opaque:
+                    ex.last_ret = None
                 r = ex.call_path(callee, [a(fr) for a in argops], fr.env, crate)
+                if opaque and ex.last_ret is not None and not (fr.env and opaque[0] in fr.env):
+                    rty, renv = ex.last_ret
+                    mm = opaque[1].match(norm_type(subst_env(rty, renv)))
+                    if mm and 'impl ' not in mm.group(1):
+                        fr.env = Env(dict(fr.env or {}, **{opaque[0]: mm.group(1)}))
                 if dset:
                     dset(fr, r)
                 if rt is None:
